@@ -184,3 +184,46 @@ pub fn rdb_write_hook() -> std::io::Result<()> {
     }
     Ok(())
 }
+
+// ---------------------------------------------------------------------------------------
+// File-level fault injection for the RDB writer: failures of the operating-system writes
+// underneath the BufWriter (including the one made by the final flush), which the
+// write_raw-level hook above cannot produce.
+
+static RDB_FILE_WRITES: AtomicU64 = AtomicU64::new(0);
+static RDB_FILE_FAIL_AT: AtomicU64 = AtomicU64::new(0);
+
+/// Fail the n-th write call that reaches the dump file from now on (0 = none)
+pub fn rdb_file_fail_nth_write(n: u64) {
+    RDB_FILE_FAIL_AT.store(n, Ordering::SeqCst);
+}
+
+pub fn rdb_file_reset_writes() {
+    RDB_FILE_WRITES.store(0, Ordering::SeqCst);
+}
+
+pub fn rdb_file_writes() -> u64 {
+    RDB_FILE_WRITES.load(Ordering::SeqCst)
+}
+
+/// Wraps the dump file handed to the BufWriter
+pub struct FaultyFile<W: std::io::Write>(pub W);
+
+impl<W: std::io::Write> std::io::Write for FaultyFile<W> {
+    fn write(&mut self, buf: &[u8]) -> std::io::Result<usize> {
+        RDB_FILE_WRITES.fetch_add(1, Ordering::SeqCst);
+        let at = RDB_FILE_FAIL_AT.load(Ordering::SeqCst);
+        if at > 0 {
+            if at == 1 {
+                RDB_FILE_FAIL_AT.store(0, Ordering::SeqCst);
+                return Err(std::io::Error::new(std::io::ErrorKind::Other, "verif: injected file write failure"));
+            }
+            RDB_FILE_FAIL_AT.store(at - 1, Ordering::SeqCst);
+        }
+        self.0.write(buf)
+    }
+    
+    fn flush(&mut self) -> std::io::Result<()> {
+        self.0.flush()
+    }
+}
